@@ -49,7 +49,7 @@ def main():
         if rc != 0:
             rc, out = sh(f'git apply --3way {diff}', cwd=wt)
         assert rc == 0, 'patch does not apply: ' + out
-        _, patch_text = sh('git diff HEAD -- src', cwd=wt)
+        _, patch_text = sh('git add -N src >/dev/null 2>&1; git diff HEAD -- src', cwd=wt)
         rc1, out1 = sh(f'{PY} {demo_local}', cwd=wt, env=env, timeout=1800)
         meta['demo_changed_exit'] = rc1
         meta['demo_changed_tail'] = out1.strip().splitlines()[-6:]
